@@ -56,6 +56,11 @@ fn main() {
         for (n, f) in fates(&sim, st.pid) { println!("  {} => {}", n, match f { Fate::Done(v) => v.show(), o => format!("{:?}", o) }); }
         return;
     }
+    if args.len() >= 7 && args[1] == "c12-child" {
+        let p = |i: usize| args[i].parse::<u64>().unwrap();
+        vh::c12::child_main(p(2), p(3), p(4), p(5), p(6));
+        return;
+    }
     if args.len() >= 3 && args[1] == "ioprobe" {
         let src = if std::path::Path::new(&args[2]).exists() { std::fs::read_to_string(&args[2]).unwrap() } else { args[2].clone() };
         let b = vh::qv::builtins_io();
@@ -121,6 +126,7 @@ fn main() {
         "C06" => { vh::c06::check(&rep); rep.finish(vh::c06::RULE, vh::c06::ASSUME, vh::c06::SITUATIONS) }
         "C05" => { vh::c05::check(&rep); rep.finish(vh::c05::RULE, vh::c05::ASSUME, vh::c05::SITUATIONS) }
         "C14" => { vh::c14::check(&rep); rep.finish(vh::c14::RULE, vh::c14::ASSUME, vh::c14::SITUATIONS) }
+        "C12" => { vh::c12::check(&rep); rep.finish(vh::c12::RULE, vh::c12::ASSUME, vh::c12::SITUATIONS) }
         _ => { eprintln!("unknown property {}", id); 2 }
     };
     std::process::exit(code);
